@@ -61,6 +61,18 @@ CLAIMED = {
    note=TRUST + "Slash/polychord clauses are finite-domain theorems, tied beyond that domain by the correspondence only. One defect "
         "repaired by a fix: commit (a771e68).",
    design="§4 C06"),
+ "C07": dict(
+   text="recognise_all: kernel evaluation of the whole stated domain - every constructible shorthand x the 21 roots with at most "
+        "one accidental x every rotation - of 'the shorthand-form answer contains a name that rebuilds exactly the root-position "
+        "chord and the long-form answer at that position is root + meaning + inversion ordinal' (10 slice files, parallel); "
+        "triads_sound: all 21^3 three-note inputs (7 slice files); forms_agree: for EVERY list of strings, if the shorthand "
+        "form succeeds the long form succeeds with the same length (induction over the inversion exhauster + whole-table facts "
+        "that every emitted name has a meaning, is constructible and does not start with an accidental; ordinals total on 1..7); "
+        "trivial answers for 0/1/2 notes. Recogniser if/elif tables and int_desc are regenerated from chords.py and proved equal "
+        "to the model's (Tie A); 14k differential cases incl. random 4-9 note inputs (Tie B).",
+   note=TRUST + "Double-accidental roots are covered by the correspondence only (sampled), as the property states. Two defects repaired "
+        "by fix: commits (198944d ordinals beyond the third inversion, e53f2c1 M11).",
+   design="§4 C07"),
  "C04": dict(
    text="Whole-table kernel evaluation (decide +kernel) of everything the statement says about each of the 30 keys, the 15 "
         "relative couples, the key objects and signature<->key inversion; unbounded theorems for rejections (any string, any "
